@@ -1,6 +1,33 @@
 // Package race is the free-running supplement of C13: the same caller bodies as
 // the schedule explorer, real goroutines, real sync.Mutex (no overlay), under
 // the Go race detector.
+//
+// Every iteration runs inside its own testing/synctest bubble. The goroutines of
+// a bubble still run in parallel on real threads (the race detector sees them as
+// usual); only time is virtual, and the runtime knows when every goroutine of the
+// bubble is durably blocked. That gives the pass a second verdict besides race
+// reports, decided by quiescence and never by a wall clock:
+//
+//	liveness — the root of the bubble lets virtual time pass beyond every timer
+//	the iteration uses (time.Sleep only returns once every other goroutine of the
+//	bubble is durably blocked) and calls synctest.Wait(); a caller that has not
+//	returned by then is durably blocked for good — nothing in the bubble can run
+//	any more, and the JWKS endpoint has answered every request it got. It is
+//	reported as C13/liveness/caller-never-returns(free-running) together with the
+//	iteration's configuration, the state of every caller and the blocked
+//	goroutines (the replay description), and the process exits: no hang.
+//
+//	probe — when the concurrent phase has drained (all callers returned, no other
+//	goroutine left), one more SEQUENTIAL call is made on the same key set with a
+//	live context and a token signed by the key the provider serves from now on
+//	under its own key id: it must be accepted (from the cache, or after one
+//	refresh). A key set that a finished download left unusable (stale in-flight
+//	marker) fails here.
+//
+// Virtual time also buys schedules a free-running test cannot reach in real
+// time: downloads that take a while (callers pile up behind the shared download),
+// contexts that expire while their caller waits, cancellations from a sibling
+// goroutine between two downloads — at no wall-clock cost.
 package race
 
 import (
@@ -11,10 +38,13 @@ import (
 	"io"
 	"net/http"
 	"os"
+	"runtime"
 	"strconv"
-	"sync"
+	"strings"
 	"sync/atomic"
 	"testing"
+	"testing/synctest"
+	"time"
 
 	jose "github.com/go-jose/go-jose/v4"
 
@@ -23,22 +53,156 @@ import (
 	"verif/harness/rig/keys"
 )
 
-type rt struct{ n *atomic.Int64 }
+// Marker of a verdict line on stdout: "<Marker> <json>"; the parent (racePass in c13_test.go) parses it.
+const Marker = "C13-FREE-RUNNING-VERDICT"
+
+// callerCfg is one goroutine of an iteration: Calls sequential VerifySignature calls on one context.
+type callerCfg struct {
+	Tokens        []string `json:"tokens"`                    // token kinds of its sequential calls
+	PreCancelled  bool     `json:"context_cancelled_at_start"` // the context is cancelled before the first call
+	TimeoutMs     int      `json:"context_timeout_ms,omitempty"`
+	CancelAfterMs int      `json:"cancelled_by_sibling_after_ms,omitempty"`
+	StartAfterMs  int      `json:"starts_after_ms,omitempty"`
+}
+
+// iterCfg is everything that is fixed about an iteration (a pure function of its number); the
+// interleaving of the goroutines is what runs free.
+type iterCfg struct {
+	It       int         `json:"iteration"`
+	Mode     string      `json:"mode"`              // instant | slow | mixed
+	DelaysMs []int       `json:"download_takes_ms"` // request n takes DelaysMs[n % len] of virtual time
+	Callers  []callerCfg `json:"callers"`
+	Answers  string      `json:"jwks_answers"`
+}
+
+var tokSpecs = [][3]string{{"k1", "k1", "p256a"}, {"k2", "k2", "p256b"}, {"unk", "zz", "p256c"}, {"nokid", "", "p256a"}, {"forged", "k1", "p256c"}}
+
+func config(it int) iterCfg {
+	c := iterCfg{It: it, Answers: "request n (1-based): 500 when n%5==0, else 200 {k1} plus k2 when n%3==0; a request whose context is cancelled gets the context error"}
+	switch it % 3 {
+	case 0:
+		c.Mode, c.DelaysMs = "instant", []int{0}
+	case 1:
+		c.Mode, c.DelaysMs = "slow", []int{10}
+	case 2:
+		c.Mode, c.DelaysMs = "mixed", []int{0, 7, 14}
+	}
+	for g := 0; g < 6; g++ {
+		cc := callerCfg{}
+		for k := 0; k < 3; k++ {
+			cc.Tokens = append(cc.Tokens, tokSpecs[(g+k+it)%len(tokSpecs)][0])
+		}
+		switch (g + it) % 4 {
+		case 0:
+			cc.PreCancelled = true
+		case 1:
+			if c.Mode != "instant" {
+				cc.TimeoutMs = 5 // expires while the first download is on its way
+			}
+		case 2:
+			if c.Mode != "instant" {
+				cc.CancelAfterMs = 15 // between two downloads / during the second
+			}
+		}
+		if c.Mode == "mixed" {
+			cc.StartAfterMs = 3 * g
+		}
+		c.Callers = append(c.Callers, cc)
+	}
+	return c
+}
+
+type rt struct {
+	n      *atomic.Int64
+	delays []int
+	probe  *atomic.Bool
+}
+
+func jwk(name, kid string) jose.JSONWebKey {
+	return jose.JSONWebKey{Key: keys.Get(name).PubForJose(), KeyID: kid, Use: "sig", Algorithm: "ES256"}
+}
 
 func (r rt) RoundTrip(req *http.Request) (*http.Response, error) {
 	n := r.n.Add(1)
-	set := jose.JSONWebKeySet{Keys: []jose.JSONWebKey{{Key: keys.Get("p256a").PubForJose(), KeyID: "k1", Use: "sig", Algorithm: "ES256"}}}
+	mk := func(code int, body []byte) (*http.Response, error) {
+		return &http.Response{StatusCode: code, Status: strconv.Itoa(code), Body: io.NopCloser(bytes.NewReader(body)), Request: req}, nil
+	}
+	if r.probe.Load() {
+		// the sequential probe after the concurrent phase: the provider serves {k1,k2}, always
+		b, _ := json.Marshal(jose.JSONWebKeySet{Keys: []jose.JSONWebKey{jwk("p256a", "k1"), jwk("p256b", "k2")}})
+		return mk(200, b)
+	}
+	if d := r.delays[int(n)%len(r.delays)]; d > 0 {
+		time.Sleep(time.Duration(d) * time.Millisecond) // virtual: the download is on its way
+	}
+	set := jose.JSONWebKeySet{Keys: []jose.JSONWebKey{jwk("p256a", "k1")}}
 	if n%3 == 0 {
-		set.Keys = append(set.Keys, jose.JSONWebKey{Key: keys.Get("p256b").PubForJose(), KeyID: "k2", Use: "sig", Algorithm: "ES256"})
+		set.Keys = append(set.Keys, jwk("p256b", "k2"))
 	}
 	if n%5 == 0 {
-		return &http.Response{StatusCode: 500, Status: "500", Body: io.NopCloser(bytes.NewReader(nil)), Request: req}, nil
+		return mk(500, nil)
 	}
 	if err := req.Context().Err(); err != nil {
 		return nil, err
 	}
 	b, _ := json.Marshal(set)
-	return &http.Response{StatusCode: 200, Status: "200", Body: io.NopCloser(bytes.NewReader(b)), Request: req}, nil
+	return mk(200, b)
+}
+
+type callerState struct {
+	Returned  atomic.Bool
+	CallsDone atomic.Int32
+	last      atomic.Value // string: result of the last finished call
+}
+
+func short(payload []byte, err error) string {
+	if err != nil {
+		s := err.Error()
+		if len(s) > 90 {
+			s = s[:90]
+		}
+		return "error: " + s
+	}
+	return "accepted: " + string(payload)
+}
+
+// bubbleGoroutines lists the goroutines of the current bubble other than the caller's (state and innermost frames).
+func bubbleGoroutines() []string {
+	buf := make([]byte, 1<<20)
+	n := runtime.Stack(buf, true)
+	var out []string
+	for i, blk := range strings.Split(string(buf[:n]), "\n\n") {
+		lines := strings.Split(blk, "\n")
+		if i == 0 || len(lines) == 0 || !strings.Contains(lines[0], "synctest bubble") {
+			continue // i == 0: the goroutine that asks
+		}
+		if strings.Contains(blk, "internal/synctest.Run(") || strings.Contains(blk, "synctest.testingSynctestTest(") {
+			continue // the scaffolding of synctest.Test itself
+		}
+		var fr []string
+		for _, l := range lines[1:] {
+			if strings.HasPrefix(l, "\t") || strings.HasPrefix(l, "created by") {
+				continue
+			}
+			if j := strings.LastIndexByte(l, '('); j > 0 {
+				l = l[:j]
+			}
+			fr = append(fr, l)
+			if len(fr) == 6 {
+				break
+			}
+		}
+		out = append(out, lines[0]+" "+strings.Join(fr, " < "))
+	}
+	return out
+}
+
+func verdict(v map[string]any) {
+	b, _ := json.Marshal(v)
+	fmt.Printf("\n%s %s\n", Marker, b)
+	os.Stdout.Sync()
+	// the bubble cannot be left while goroutines are blocked in it: end the process (the parent reads the verdict line)
+	os.Exit(9)
 }
 
 func TestRace(t *testing.T) {
@@ -46,33 +210,142 @@ func TestRace(t *testing.T) {
 	if iters == 0 {
 		iters = 100
 	}
-	var toks []*jose.JSONWebSignature
-	for i, spec := range [][2]string{{"k1", "p256a"}, {"k2", "p256b"}, {"zz", "p256c"}, {"", "p256a"}, {"k1", "p256c"}} {
-		c := keys.SignCompact(keys.Get(spec[1]), jose.ES256, spec[0], []byte(fmt.Sprintf(`{"sub":"%d"}`, i)))
+	only := -1 // C13_RACE_ONLY=<iteration>: repeat that iteration's configuration C13_RACE_ITERS times (replay of a verdict)
+	if v, err := strconv.Atoi(os.Getenv("C13_RACE_ONLY")); err == nil && os.Getenv("C13_RACE_ONLY") != "" {
+		only = v
+	}
+	toks := map[string]*jose.JSONWebSignature{}
+	for i, spec := range tokSpecs {
+		c := keys.SignCompact(keys.Get(spec[2]), jose.ES256, spec[1], []byte(fmt.Sprintf(`{"sub":"%d"}`, i)))
 		j, err := jose.ParseSigned(c, []jose.SignatureAlgorithm{jose.ES256})
 		if err != nil {
 			t.Fatal(err)
 		}
-		toks = append(toks, j)
+		toks[spec[0]] = j
 	}
-	for it := 0; it < iters; it++ {
-		var n atomic.Int64
-		ks := rp.NewRemoteKeySet(&http.Client{Transport: rt{&n}}, "https://op.example/keys")
-		var wg sync.WaitGroup
-		for g := 0; g < 6; g++ {
-			wg.Add(1)
-			go func(g int) {
-				defer wg.Done()
-				ctx, cancel := context.WithCancel(context.Background())
-				if (g+it)%4 == 0 {
-					cancel()
-				}
-				defer cancel()
-				for k := 0; k < 3; k++ {
-					ks.VerifySignature(ctx, toks[(g+k+it)%len(toks)])
-				}
-			}(g)
+	var stuckChecks, probes int
+	for rep := 0; rep < iters; rep++ {
+		it := rep
+		if only >= 0 {
+			it = only
 		}
-		wg.Wait()
+		cfg := config(it)
+		synctest.Test(t, func(t *testing.T) {
+			var n atomic.Int64
+			var probe atomic.Bool
+			ks := rp.NewRemoteKeySet(&http.Client{Transport: rt{&n, cfg.DelaysMs, &probe}}, "https://op.example/keys")
+			st := make([]*callerState, len(cfg.Callers))
+			var forgedAccepted atomic.Value
+			for g, cc := range cfg.Callers {
+				st[g] = &callerState{}
+				go func(g int, cc callerCfg) {
+					defer st[g].Returned.Store(true)
+					if cc.StartAfterMs > 0 {
+						time.Sleep(time.Duration(cc.StartAfterMs) * time.Millisecond)
+					}
+					ctx, cancel := context.WithCancel(context.Background())
+					if cc.TimeoutMs > 0 {
+						ctx, cancel = context.WithTimeout(context.Background(), time.Duration(cc.TimeoutMs)*time.Millisecond)
+					}
+					defer cancel()
+					if cc.PreCancelled {
+						cancel()
+					}
+					if cc.CancelAfterMs > 0 {
+						go func() {
+							time.Sleep(time.Duration(cc.CancelAfterMs) * time.Millisecond)
+							cancel()
+						}()
+					}
+					for _, kind := range cc.Tokens {
+						p, err := ks.VerifySignature(ctx, toks[kind])
+						st[g].last.Store(kind + " -> " + short(p, err))
+						st[g].CallsDone.Add(1)
+						if err == nil && (kind == "unk" || kind == "forged") {
+							forgedAccepted.Store(fmt.Sprintf("caller %d: token kind %s (signed by a key the provider never serves) was accepted", g, kind))
+						}
+					}
+				}(g, cc)
+			}
+			// quiescence: let virtual time pass beyond every timer of the iteration (and, generously, beyond any
+			// timer the library might have of its own); Sleep returns only when everything else is durably blocked
+			allBack := func() bool {
+				for _, s := range st {
+					if !s.Returned.Load() {
+						return false
+					}
+				}
+				return true
+			}
+			waited := time.Duration(0)
+			for _, h := range []time.Duration{time.Hour, 24 * time.Hour, 365 * 24 * time.Hour} {
+				time.Sleep(h)
+				waited += h
+				synctest.Wait()
+				if allBack() {
+					break
+				}
+			}
+			stuckChecks++
+			describe := func() []map[string]any {
+				var cs []map[string]any
+				for g, s := range st {
+					last, _ := s.last.Load().(string)
+					cs = append(cs, map[string]any{"caller": g, "returned": s.Returned.Load(), "calls_finished": s.CallsDone.Load(), "last_finished_call": last})
+				}
+				return cs
+			}
+			rerun := fmt.Sprintf("C13_RACE_ONLY=%d C13_RACE_ITERS=500 <race test binary> -test.run TestRace   (vcheck C13 --replay <this file> does that)", it)
+			if !allBack() {
+				var who []string
+				for g, s := range st {
+					if !s.Returned.Load() {
+						who = append(who, fmt.Sprintf("caller %d (call %d of %v, context cancelled at start: %v)", g, s.CallsDone.Load()+1, cfg.Callers[g].Tokens, cfg.Callers[g].PreCancelled))
+					}
+				}
+				verdict(map[string]any{"signature": "C13/liveness/caller-never-returns(free-running)",
+					"detail": fmt.Sprintf("iteration %d (%s): every goroutine of the execution is durably blocked, every timer has fired (%v of virtual time passed), the JWKS endpoint has answered all %d requests it received, and these callers have not returned: %s",
+						it, cfg.Mode, waited, n.Load(), strings.Join(who, "; ")),
+					"iteration": it, "repetition": rep, "config": cfg, "jwks_requests": n.Load(), "callers": describe(), "blocked_goroutines": bubbleGoroutines(), "rerun": rerun})
+			}
+			if v, _ := forgedAccepted.Load().(string); v != "" {
+				verdict(map[string]any{"signature": "C13/safety/accepted-without-served-key(free-running)", "detail": fmt.Sprintf("iteration %d (%s): %s", it, cfg.Mode, v),
+					"iteration": it, "repetition": rep, "config": cfg, "jwks_requests": n.Load(), "callers": describe(), "rerun": rerun})
+			}
+			if left := bubbleGoroutines(); len(left) > 0 {
+				// goroutines of the library outlive every call: the statement does not forbid it, but the bubble cannot be
+				// left (and the probe would not be sequential) — say so, no verdict
+				verdict(map[string]any{"signature": "", "no_verdict": fmt.Sprintf("iteration %d: %d goroutine(s) outlive all calls; the free-running pass stops here", it, len(left)),
+					"iteration": it, "blocked_goroutines": left})
+			}
+			// sequential probe on the drained key set
+			probe.Store(true)
+			before := n.Load()
+			var res atomic.Pointer[error]
+			go func() {
+				_, err := ks.VerifySignature(context.Background(), toks["k2"])
+				res.Store(&err)
+			}()
+			time.Sleep(365 * 24 * time.Hour)
+			synctest.Wait()
+			probes++
+			var err error
+			if r := res.Load(); r != nil {
+				err = *r
+			}
+			pd := map[string]any{"iteration": it, "repetition": rep, "config": cfg, "jwks_requests_before_probe": before, "jwks_requests_by_probe": n.Load() - before, "callers": describe(), "rerun": rerun}
+			switch {
+			case res.Load() == nil:
+				pd["signature"] = "C13/liveness/caller-never-returns(free-running)"
+				pd["detail"] = fmt.Sprintf("iteration %d (%s): after all %d concurrent callers had returned and no goroutine was left, ONE more call (live context, token signed by the served key k2) never returns: it is durably blocked, no download is on its way (JWKS requests by the probe: %d)", it, cfg.Mode, len(st), n.Load()-before)
+				pd["blocked_goroutines"] = bubbleGoroutines()
+				verdict(pd)
+			case err != nil:
+				pd["signature"] = "C13/completeness/valid-token-rejected-after-quiescence(free-running)"
+				pd["detail"] = fmt.Sprintf("iteration %d (%s): after all %d concurrent callers had returned and no goroutine was left, a sequential call with a live context and a token signed by k2 — which the provider serves under kid k2 in every answer from then on — failed with %q (JWKS requests by the probe: %d)", it, cfg.Mode, len(st), err, n.Load()-before)
+				verdict(pd)
+			}
+		})
 	}
+	fmt.Printf("\n%s %s\n", Marker, fmt.Sprintf(`{"signature":"","completed":true,"iterations":%d,"quiescence_checks":%d,"probes":%d}`, iters, stuckChecks, probes))
 }
